@@ -73,6 +73,10 @@ def interpolate(input, coord, kernel="spline", width=2, param=1):
 
     input = input.reshape([batch_size] + list(input.shape[-ndim:]))
     coord = coord.reshape([npts, ndim])
+    if not np.issubdtype(coord.dtype, np.floating):
+        # width and param take the coordinates' dtype below: integer
+        # coordinates must not truncate them.
+        coord = coord.astype(np.float64)
     output = xp.zeros([batch_size, npts], dtype=input.dtype)
 
     if np.isscalar(param):
@@ -157,6 +161,10 @@ def gridding(input, coord, shape, kernel="spline", width=2, param=1):
 
     input = input.reshape([batch_size, npts])
     coord = coord.reshape([npts, ndim])
+    if not np.issubdtype(coord.dtype, np.floating):
+        # width and param take the coordinates' dtype below: integer
+        # coordinates must not truncate them.
+        coord = coord.astype(np.float64)
     output = xp.zeros([batch_size] + list(shape[-ndim:]), dtype=input.dtype)
 
     if np.isscalar(param):
